@@ -11,8 +11,8 @@ def run(tier, seed):
     quick = tier == "quick"
     vlib.tlc_check(chk, "H_Fault failure atomicity, exhaustive (conservation of units, FailAtomic, retry)", os.path.join(SPEC, "H_FaultMC.tla"),
                    os.path.join(SPEC, "H_FaultMC.cfg"), timeout=600)
-    optsets = [("cold=%d" % c, "nes=%d" % n) for c in (0, 1) for n in (0, 1)]
-    done, abnormal = vlib.history_check(chk, "d_fault", ["ops"], "H_Fault", quick, seed, nseeds_quick=141, nseeds_thorough=47 * 40, optsets=optsets, free_runs=0,
+    optsets = [("cold=%d" % c, "nes=%d" % n, "ext=%d" % x) for c in (0, 1) for n in (0, 1) for x in (0, 1)]
+    done, abnormal = vlib.history_check(chk, "d_fault", ["ops"], "H_Fault", quick, seed, nseeds_quick=47 * 5, nseeds_thorough=47 * 40, optsets=optsets, free_runs=0,
                                         what="a call under an injected allocation / OS-resource failure crashed, failed without a failing request, "
                                              "handed out a handle, changed what the API shows, left memory behind, or its retry / the follow-up workload failed",
                                         env={"ABTV_BUDGET": "8000000"})
@@ -33,7 +33,7 @@ def run(tier, seed):
     chk.assumptions += ["single failures only (one failing request per call), injected into malloc/calloc/realloc/posix_memalign/mmap/pthread_create/pthread_mutex_init/pthread_cond_init/pthread_barrier_init of the calling thread",
                         "ABT_thread_create_many, ABT_thread_free_many, ABT_thread_join_many are documented as having no error handling (DOC_UNDEFINED_NO_ERROR_HANDLING) and are excluded",
                         "'unchanged' is judged on what the API shows (stream count, pool sizes, key values, unit states, a mutex) plus the allocation ledger; leak = 0 right after the failed call only when the routine's caches were warmed by one successful call, always after ABT_finalize",
-                        "routines are called from the primary ULT; a second (idle) stream is present in half of the runs"]
+                        "routines are called from the primary ULT or (ext=1) from an external thread; a second (idle) stream is present in half of the runs"]
     return chk.finish()
 
 
